@@ -276,7 +276,10 @@ def showDump (nv : Nat) (st : State) : String :=
   let ops (l : List Term) : String := " , ".intercalate (l.map tm)
   let cs := sortStrs (st.store.map fun p =>
     match p.2 with
-    | .diseq ps => "diseq " ++ " & ".intercalate (sortStrs (ps.map fun q => s!"{tm (.var q.1)}!={tm q.2}"))
+    | .diseq ps =>
+      -- canonical form: each pair's term resolved by the constraint's own pairs first
+      let own (t : Term) : Term := match State.substOfPairs ps with | some τ => apply τ t | none => t
+      "diseq " ++ " & ".intercalate (sortStrs (ps.map fun q => s!"{tm (.var q.1)}!={tm (own q.2)}"))
     | .plusz u v w => "plusz " ++ ops [u, v, w]
     | .timesz u v w => "timesz " ++ ops [u, v, w]
     | .ltefd u v => "ltefd " ++ ops [u, v]
